@@ -156,6 +156,21 @@ def nullspace_cases(rng, n):
   return recs
 
 
+def scaled_L_cases(rng, n):
+  """transformations learned on data in very large / very small units: every entry of L tiny (<= 1e-8) or huge, square and
+  rectangular, nothing special about the diagonal"""
+  recs = []
+  for i in range(n):
+    d = int(rng.integers(2, 6))
+    k = d if i % 2 == 0 else int(rng.integers(1, d + 1))
+    s = float([1e-9, 1e-12, 1e-10, 1e9][i % 4])
+    L = rng.standard_normal((k, d)) * s
+    unit = 1.0 / s
+    pts = [[rng.standard_normal(d) * unit, rng.standard_normal(d) * unit] for _ in range(3)]
+    recs.append(dict(lane='scaled_L', L=L, pts=np.array(pts)))
+  return recs
+
+
 def float32_cases(rng, n):
   """query points held in single precision, at magnitudes whose squares neither overflow nor vanish in DOUBLE precision
   (and whose coordinates are finite float32 numbers): the distances are computed from the numbers, whatever type holds them"""
